@@ -640,7 +640,7 @@ func feat(r *RNG, name string, num, den int) bool {
 // programFeatures lists the rare program-level constructs that buildPool forces one by one.
 var programFeatures = []string{"family", "dotted", "case_sibling", "dup_label", "equ_redef", "alias_chain", "late_org", "jumpstress",
 	"extern_overlap", "global_equ", "instrset_pre386", "empty_image", "undefined_target", "seg_operand", "poison_data", "big_resb",
-	"mid_org", "mid_directive", "mid_equ_dollar", "edit_twin", "shared_operands"}
+	"mid_org", "mid_directive", "mid_equ_dollar", "edit_twin", "shared_operands", "many_jumps", "big_program"}
 
 type genOpts struct {
 	Bits32, Coff bool
@@ -673,6 +673,9 @@ func drawGenOpts(r *RNG) genOpts {
 		o.Extern = pick(r, []int{0, 0, 2, 5})
 	} else if r.Chance(1, 6) {
 		o.NGlobal = r.Range(1, 5)
+	}
+	if feat(r, "big_program", 1, 25) { // hundreds of statements: thresholds, batch sizes, table growth
+		o.NStmts, o.NLabels = pick(r, []int{200, 300, 500}), pick(r, []int{30, 60, 100})
 	}
 	if feat(r, "empty_image", 1, 25) { // nothing but labels, EQUs and directives: an empty image
 		o.NStmts = 0
@@ -1007,6 +1010,30 @@ func genJumpStress(r *RNG) []string {
 	return body
 }
 
+// genManyJumps: dozens to hundreds of label-referencing jumps and calls in one program (anything
+// that batches, chunks or caches label references only shows with many of them).
+func genManyJumps(r *RNG) []string {
+	n := pick(r, []int{33, 40, 48, 65, 70, 100, 130, 257})
+	nl := r.Range(4, 24)
+	lbl := func(i int) string { return fmt.Sprintf("mj%d", i) }
+	var body []string
+	next := 0
+	for i := 0; i < n; i++ {
+		if next < nl && r.Chance(nl, n) {
+			body = append(body, lbl(next)+":")
+			next++
+		}
+		body = append(body, "\t"+pick(r, []string{"JMP", "JMP", "JE", "JNZ", "JC", "JAE", "JB", "CALL", "JMP", "JNE"})+"\t"+lbl(r.Intn(nl)))
+		if r.Chance(1, 3) {
+			body = append(body, pick(r, []string{"\tNOP", "\tMOV\tAX,0", "\tHLT", "\tRESB\t3", "\tDB\t1,2", "\tADD\tSI,1"}))
+		}
+	}
+	for ; next < nl; next++ {
+		body = append(body, lbl(next)+":", "\tNOP")
+	}
+	return body
+}
+
 // genProgram draws one generated program; with twin=true it also returns its twin: the
 // same statement lines under a different mode/format/origin header.
 func genProgram(r *RNG, name string, twin bool, nonASCII bool) []*Program {
@@ -1060,6 +1087,9 @@ func genProgram(r *RNG, name string, twin bool, nonASCII bool) []*Program {
 	}
 	if feat(r, "jumpstress", 1, 6) {
 		body = append(body, genJumpStress(r)...)
+	}
+	if feat(r, "many_jumps", 1, 12) {
+		body = append(body, genManyJumps(r)...)
 	}
 	switch forceFeature { // statement-level constructs: one explicit instance
 	case "undefined_target":
